@@ -79,6 +79,19 @@ CHECKS = {
             'monotone_* are stated for finite inputs with errors not both zero (the documented 0/0 convention is not '
             'monotone by design).',
             '10 (C05)'),
+    'C07': ('Lean 4 proof: chi-square statistic as a sum over the used bins; ndf = number of used bins, with ignore_empty '
+            'left out <=> both errors zero, left-out bins count for nothing, term = squared difference over the sum of the '
+            'squared errors, order independence (permutation invariance, exact arithmetic incl. NaN/inf), verdict <=> all '
+            'p > alpha, undefined statistic never passes + differential correspondence with TestChi2 (ndf, oracles, '
+            'verdict exact; chi2 within 1e-12) incl. permuted evaluation',
+            'ndf_eq_count, left_out_iff_both_zero, left_out_not_counted, used_counted, chi2_all_used, term_eq_ratio, '
+            'chi2_perm_invariant, ndf_perm_invariant, verdict_iff_all_p, sum_nan_of_mem, nan_never_passes (hypothesis '
+            'sf nan = nan, checked against scipy on every case). Tied to chi2.py on every run; the oracle recomputes the '
+            'statistic with fsum in the formulation of the property and re-evaluates the test with permuted bins.',
+            'Trusted: Lean kernel + standard axioms; XReal = exact arithmetic (numpy sums pairwise, the model left to '
+            'right: compared within 1e-12 relative); scipy chi2.sf is a parameter (p-values passed as data, recomputed '
+            'by the oracle).',
+            '10 (C07)'),
     'C08': ('Lean 4 proof: Dataset arithmetic transcribed generically over the number type; value = plain operation, '
             'error rules (quadratic sum for + and -, relative-error form for * and / over exact reals, |c| scaling), '
             'well-formedness and non-negative errors for every finite chain by induction over the command list + '
